@@ -360,6 +360,8 @@ func gGenProg(rng *rand.Rand, wide bool) *gProg {
 							e = "split [1, 2]"
 						}
 					}
+				} else if rng.Intn(6) == 0 {
+					e = "null" // null is assignable to every type (lets a later edit change the type alone)
 				} else if r, ok := gPick(rng, srcs, in.Type); ok && rng.Intn(3) != 0 {
 					e = r
 				} else {
